@@ -267,6 +267,12 @@ pub mod metatoken {
         pub fn balance(_env: Env, _id: Address) -> i128 {
             0
         }
+        /// a token whose issuer can rename it
+        pub fn set_metadata(env: Env, name: String, symbol: String, decimals: u32) {
+            env.storage().instance().set(&MetaKey::Name, &name);
+            env.storage().instance().set(&MetaKey::Symbol, &symbol);
+            env.storage().instance().set(&MetaKey::Decimals, &decimals);
+        }
     }
 }
 pub use metatoken::*;
